@@ -107,7 +107,7 @@ class Skeleton:
     @staticmethod
     def _is_enum_param(p):
         c = (p.get('cty') or '').replace('const ', '')
-        return c.endswith('::Type') and '&' not in c and '*' not in c
+        return (c.endswith('::Type') or c == 'bool') and '&' not in c and '*' not in c
 
     def skeleton(self, key):
         """key: function name, or (function name, ((param decl, enumerator), ...)) for a specialisation"""
@@ -129,6 +129,10 @@ class Skeleton:
         k = c.get('k')
         if k == 'paren':
             return self.const_cond(c['e'])
+        if k == 'ref' and c.get('d') in self._bind and isinstance(self._bind[c['d']], bool):
+            return self._bind[c['d']]
+        if k == 'bool':
+            return bool(c['v'])
         if k == 'un' and c['op'] == '!':
             v = self.const_cond(c['e'])
             return None if v is None else not v
@@ -184,6 +188,8 @@ class Skeleton:
                         a = strip_casts(a)
                         if a.get('k') == 'ref' and a.get('dk') == 'enumerator':
                             binding.append((p['d'], a['name']))
+                        elif a.get('k') == 'bool':
+                            binding.append((p['d'], bool(a['v'])))       # a flag of the helper (has_neq_zero): constant per call site
                         elif a.get('k') == 'ref' and a.get('d') in self._bind:
                             binding.append((p['d'], self._bind[a['d']]))
                         else:
